@@ -276,6 +276,7 @@ impl<const K: usize> AffTree<K> {
                 let mut created_children = 0;
                 let mut skipped_children = 0;
                 let mut label_created = None;
+                let mut skipped_edges: Vec<(Label, TreeIndex, TreeIndex)> = Vec::new();
 
                 for edg in lhs.tree.children(parent0_idx) {
                     let child0_idx = edg.target_idx;
@@ -307,11 +308,24 @@ impl<const K: usize> AffTree<K> {
                         label_created = Some(label);
                     } else {
                         skipped_children += 1;
-                        rhs.tree.remove_child(parent1_idx, label);
+                        skipped_edges.push((label, child0_idx, child1_idx));
                     }
                 }
 
-                // In the case of no children remove_child already cleans up the tree
+                if created_children == 0 {
+                    // A decision without children would be read as a terminal.
+                    // When no branch is judged feasible keep all of them instead.
+                    for (_, child0_idx, child1_idx) in skipped_edges {
+                        stack.push((child0_idx, child1_idx));
+                        n_nodes += 1;
+                    }
+                    continue;
+                }
+
+                for (label, _, _) in skipped_edges {
+                    rhs.tree.remove_child(parent1_idx, label);
+                }
+
                 if created_children == 1 && created_children + skipped_children == K {
                     debug!("Forwarding node");
                     // Move affine function to parent node and clean up tree
